@@ -51,8 +51,10 @@ def governed_read(o) -> Optional[str]:
     if o[0] != "read":
         return None
     s = o[1]
-    if s["kind"] == "txn":
+    if s["kind"] in ("txn", "gtxns_self"):
         return s["field"]
+    if s["kind"] == "gtxns_gi":
+        return None  # not one of the attributed read forms: opaque
     if s["kind"] == "global" and s["field"] == "GroupSize":
         return "GroupSize"
     # reads of another group member: keyed ("abs", index, field) / ("rel", offset, field); they only take
@@ -99,6 +101,11 @@ def eval3(c, val: Dict[str, Any]) -> frozenset:
     if k == "cmp":
         a, b = c[2], c[3]
         fa, fb = governed_read(a), governed_read(b)
+        # a read through the absolute index the governed transaction itself occupies is a read of its own field
+        if isinstance(fa, tuple) and fa[0] == "abs" and fa not in val and val.get("__own_index__") == fa[1]:
+            fa = fa[2]
+        if isinstance(fb, tuple) and fb[0] == "abs" and fb not in val and val.get("__own_index__") == fb[1]:
+            fb = fb[2]
         if fa is not None and fa in val and b[0] != "read":
             return _cmp3(c[1], val[fa], const_value(b))
         if fb is not None and fb in val and a[0] != "read":
